@@ -169,6 +169,8 @@ EXPORT char *_gets_s_chk(char *restrict dest, rsize_t dmax,
 #ifdef SAFECLIB_STR_NULL_SLACK
             memset(dest, 0, dmax);
 #endif
+        } else {
+            *dest = '\0'; /* end-of-file and nothing read */
         }
     }
 
